@@ -616,6 +616,15 @@ def consumers(tier, seed, tables=None, oracle_after=True):
         yield "to_geodataframe of a variable", lambda: fda.to_geodataframe(periodic_elements="ignore", engine="geopandas")
         yield "to_xarray('ugrid')", lambda: g.to_xarray("ugrid")
         yield "edge distances", lambda: (g.edge_node_distances, g.edge_face_distances)
+
+        def reassign():
+            # every variable the grid holds written back through its own public setter (what Grid.chunk does): no OTHER variable may change
+            for nm in list(g._ds.data_vars) + [c for c in g._ds.coords if c in g._ds.variables]:
+                prop = getattr(type(g), nm, None)
+                if isinstance(prop, property) and prop.fset is not None:
+                    setattr(g, nm, getattr(g, nm))
+        yield "every stored variable re-assigned through its setter", reassign
+        yield "Grid.chunk(n_node=2, n_edge=2, n_face=1)", lambda: g.chunk(n_node=2, n_edge=2, n_face=1)
         if mesh["closed"]:
             yield "get_dual()", lambda: g.get_dual()
 
@@ -657,7 +666,7 @@ def consumers(tier, seed, tables=None, oracle_after=True):
                 elif oracle_after:
                     # tables first built after the operation: against the oracle
                     check_grid(rec, "after_" + sc, "edges_then_edge_face", mesh, orc, grid=g)
-    bound = (f"{len(pick)} manifold catalogue meshes (open patches with boundary edges first, closed ones for the dual) x 20 read-only "
+    bound = (f"{len(pick)} manifold catalogue meshes (open patches with boundary edges first, closed ones for the dual) x 22 read-only / value-preserving "
              f"operations x grid prepared with all tables built (compared with copies taken before) or nothing built (tables first "
              f"built afterwards, checked against the oracle)")
     return result(rec.cases, len(distinct), rec.failures, bound, [{"mesh": m["name"]} for m in pick[:3]])
